@@ -462,6 +462,19 @@ theorem table_hashmap_value_put_locked :
     (Gotree.Gen.C11.hashMapAccesses.any (fun ma => ma.1 == "HashMap.Value")) = true ∧
     (Gotree.Gen.C11.hashMapAccesses.any (fun ma => ma.1 == "HashMap.PutValue" && ma.2.write)) = true := by decide
 
+/-- OUTSIDE the property's statement (it names tree comparison, weighted comparison, FBP and TBE), shown in
+    the table and reviewed: the two other pools driven by the thread option.  `compute roccurve` is clean;
+    every defect row (exit without `wg.Done`, return before `close`, unsynchronised write, race pair)
+    may only belong to `compute edgetrees` (cmd/edgetrees.go: its workers returned on an error without
+    `wg.Done()` and wrote the shared `err` unsynchronised — the F16/F17 pattern, repaired in /repo 279357c). -/
+theorem table_other_pools_reviewed :
+    ((Gotree.Gen.C11.otherGoroutines.filter (fun g =>
+        !g.exitsWithoutDone.isEmpty || !g.unsyncSharedWrites.isEmpty || !g.returnsBeforeClose.isEmpty)).all
+      (fun g => g.fn == "edgeTreesCmd")) = true ∧
+    racePairs (Gotree.Gen.C11.otherGoroutines.filter (fun g => g.fn != "edgeTreesCmd")) = [] ∧
+    (Gotree.Gen.C11.otherGoroutines.any (fun g => g.fn == "roccurveCmd" && g.counted)) = true ∧
+    (Gotree.Gen.C11.otherGoroutines.any (fun g => g.fn == "edgeTreesCmd" && g.counted)) = true := by decide
+
 /-- table decision ("the consumer drains", the assumption built into the send step of the LTS): in
     cmd/comparetrees.go the channels returned by `tree.Compare` and `tree.CompareWeighted` are each ranged
     over by the caller, and every "empty the channel" loop inside names that same channel (F38 drained the
